@@ -278,7 +278,7 @@ Definition rel_sp (f : family) : bool := match f with FParafac => true | _ => fa
 Definition rel_l2 (f : family) : bool := match f with FParafac => true | _ => false end.
 Definition rel_warm (f : family) : bool := match f with FHalsNnls | FFista | FActiveSet | FRandom => true | _ => false end.
 Definition rel_fb (f : family) : bool := match f with FActiveSet => true | _ => false end.
-Definition rel_alt (f : family) : bool := match f with FNNTuckerHals | FSvd | FParafac2 | FRandom | FMaskMul | FMaskMulCast | FTrAlsSampled => true | _ => false end.
+Definition rel_alt (f : family) : bool := match f with FNNTuckerHals | FSvd | FParafac2 | FRandom | FMaskMul | FMaskMulCast | FTrAlsSampled | FCpReg | FTuckerReg => true | _ => false end.
 
 Definition norm_cfg (c : cfg) : cfg :=
   let f := c_fam c in
